@@ -256,19 +256,25 @@ type violation struct {
 
 // report evaluates the results, writes replay files and evidence, prints the interface lines. Returns the exit code.
 func report(id string, pc *PropConfig, res *checkResult, tier string, seed int, verbose bool, wall time.Duration, writeEvidence bool, extraCov map[string]any) int {
-	if len(res.Errors) > 0 || len(res.Missing) > 0 {
+	if len(res.Errors) > 0 {
 		for _, e := range res.Errors {
 			fmt.Println("ENGINE ERROR:", e)
 		}
+		return 2
+	}
+	// a call to a function without contract (none on the unchanged tree; a code change may introduce one) is treated
+	// as returning arbitrary values and leaving the heap alone — recorded as an assumption, the obligations that
+	// depend on its result then fail and are reported
+	{
 		var miss []string
 		for k := range res.Missing {
 			miss = append(miss, k)
 		}
 		sort.Strings(miss)
 		for _, k := range miss {
-			fmt.Printf("ENGINE ERROR: no contract for callee %s (called at %s)\n", k, strings.Join(res.Missing[k], ", "))
+			fmt.Printf("note: call of %s has no contract: result arbitrary, heap assumed unchanged (at %s)\n", k, res.Missing[k][0])
+			res.Assumed["uncontracted call of "+k+": arbitrary result, heap assumed unchanged"] = true
 		}
-		return 2
 	}
 	byKind := map[string]int{}
 	byBackend := map[string]int{}
